@@ -149,15 +149,21 @@ pub struct RwLockReadGuard<T> { _p: PhantomData<T> }
 #[verifier::accept_recursive_types(T)]
 pub struct RwLockWriteGuard<T> { _p: PhantomData<T> }
 impl<T> RwLock<T> {
+    /// identity of the lock in the ghost set of locks the running activation holds (rule Rh threads that set)
+    pub uninterp spec fn id(&self) -> int;
     #[verifier::external_body]
     pub fn new(v: T) -> Self { unimplemented!() }
-    /// the protected value seen by the guard is ARBITRARY (whatever writers did before)
+    /// the protected value seen by the guard is ARBITRARY (whatever writers did before).
+    /// parking_lot's RwLock is not re-entrant: acquiring it while this activation already holds a guard of the same lock
+    /// (read or write) can deadlock, so the acquisition REQUIRES that the lock is not in the held set
     #[verifier::external_body]
-    pub fn read(&self) -> (g: RwLockReadGuard<T>)
+    pub fn read(&self, Ghost(held): Ghost<Set<int>>) -> (g: RwLockReadGuard<T>)
+        requires /*@C20*/ !held.contains(self.id()),
         ensures g.live(), g.lock_of() == *self,
     { unimplemented!() }
     #[verifier::external_body]
-    pub fn write(&self) -> (g: RwLockWriteGuard<T>)
+    pub fn write(&self, Ghost(held): Ghost<Set<int>>) -> (g: RwLockWriteGuard<T>)
+        requires /*@C20*/ !held.contains(self.id()),
         ensures g.live(), g.lock_of() == *self,
     { unimplemented!() }
 }
@@ -475,9 +481,11 @@ where
 //@ end
 
 //@ extract utils/src/singleflight.rs in `impl<T, E> Call<T, E> where T: ResultType, E: ResultError,` fn complete
-//@ rules Rg
+//@ rules R3k Rg Rh
 //@ contract
         requires
+            // the caller holds no guard of this call's result lock (the lock is not re-entrant)
+            /*@C20*/ !vx_held0.contains(self.res.id()),
             // only the task's own result (cloned) or the panic notice is ever published
             /*@C20*/ vx_publishable(res),
         ensures
@@ -491,8 +499,11 @@ where
 
 //@ extract utils/src/singleflight.rs in `impl<T, E> Call<T, E> where T: ResultType, E: ResultError,` fn get_future
 //@ ret r
-//@ rules R16c Rg
+//@ rules R3k R16c Rg Rh
 //@ contract
+        requires
+            // the caller holds no guard of this call's result lock (the lock is not re-entrant)
+            /*@C20*/ !vx_held0.contains(self.res.id()),
         ensures
             // Left: a stored value is handed out immediately; Right: the waiter is registered with the notifier BEFORE the
             // read guard is released
@@ -511,8 +522,11 @@ where
 
 //@ extract utils/src/singleflight.rs in `impl<T, E> Call<T, E> where T: ResultType, E: ResultError,` fn get
 //@ ret r
-//@ rules Rg
+//@ rules R3k Rg Rh
 //@ contract
+        requires
+            // the caller holds no guard of this call's result lock (the lock is not re-entrant)
+            /*@C20*/ !vx_held0.contains(self.res.id()),
         ensures
             /*@C20*/ vx_got(*self, r),
 //@ before `vx_release_read(&mut res);`
@@ -529,6 +543,7 @@ where
 //@ extract utils/src/singleflight.rs in `impl<T, E> Call<T, E> where T: ResultType, E: ResultError,` region get_future
 //@ block `Either::Right(async move {`
 //@ sig `fn get_future__wait(&self, notified: Notified) -> (r: SingleflightResult<T, E>)`
+//@ rules R3k Rh
 //@ contract
         ensures /*@C20*/ vx_got(*self, r),
 //@ end
@@ -551,7 +566,7 @@ where
 
 //@ extract utils/src/singleflight.rs in `impl<T, E, F> Future for OwnerTask<T, E, F> where T: ResultType, E: ResultError, F: TaskFuture<T, E>,` fn poll
 //@ ret r
-//@ rules Rpin Rcl
+//@ rules R3k Rpin Rcl Rh
 //@ subst `Poll<Self::Output>` => `Poll<Result<T, SingleflightError<E>>>` :: R11 the associated type of the `Future` impl written out (the method is placed in an inherent impl: std's `Future`/`Pin` are outside Verus)
 //@ contract
         ensures
@@ -572,7 +587,7 @@ where
 //@ end
 
 //@ extract utils/src/singleflight.rs in `impl<T, E, F> PinnedDrop for OwnerTask<T, E, F> where T: ResultType, E: ResultError, F: TaskFuture<T, E>,` fn drop
-//@ rules Rpin
+//@ rules R3k Rpin Rh
 //@ contract
         ensures
             // a task dropped without having answered (panic) publishes the panic notice
@@ -656,6 +671,7 @@ where
 // ---- (b) work ----------------------------------------------------------------------------------------------------------
 //@ extract utils/src/singleflight.rs in `impl<T, E: 'static> Group<T, E> where T: ResultType + 'static, E: ResultError,` fn work
 //@ ret r
+//@ rules R3k Rh
 //@ optsubst `tokio::join!(` => `vx_join2(` :: R11 stub for the join macro: both futures are awaited, the pair of their values is returned
 //@ optsubst `(results_future,` => `(vx_await(results_future),` :: R1 erased the `.await` of a future VALUE (`results_future.await` as first tuple component); the stub takes the future's value
 //@ contract
